@@ -239,6 +239,11 @@ def navigation_check(chk, fails, dis, stats):
     for i in range(n):
         c, g = gen_check.valid_script(chk.seed + 4242, i, {"stmts_max": 2, "depth": 3, "ddepth": 2, "origins": 0.5})
         t = c["script"]
+        if i % 3 == 1:
+            # non-ASCII text (two- and three-byte characters, all in the basic plane: one column, one UTF-16 unit each) and tabs
+            # in front of the tokens of a line: columns are counted in characters, not bytes
+            t = "".join((["/* é */ ", "/*日本語*/", "\t", "/* ñ€ */\t"][(i + k) % 4] if ln.strip() and (i + k) % 2 else "") + ln
+                        for k, ln in enumerate(t.splitlines(True)))
         positions = gen_check.all_positions(t, cap=100000)
         reqs = [req_open(URIS[0], t)]
         for p in positions:
